@@ -484,6 +484,10 @@ class Inliner:
             return None
         if fn.name.startswith("__") and fn.name.endswith("__"):
             return None
+        # a helper that calls itself (by any spelling of its own name) is never unfolded: there is no finite canonical form
+        if any(isinstance(x, ast.Call) and ((isinstance(x.func, ast.Name) and x.func.id == fn.name) or (isinstance(x.func, ast.Attribute) and x.func.attr == fn.name))
+               for x in ast.walk(fn)) or any(isinstance(x, ast.Assign) and isinstance(x.value, ast.Attribute) and x.value.attr == fn.name for x in ast.walk(fn)):
+            return None
         decos = set()
         for d in fn.decorator_list:
             decos.add(ast.unparse(d))
